@@ -47,7 +47,60 @@ def run(ctx):
                 p["oc"] = [rng.choice([a - d, b + d, (a + b) / 2]) for a, b, d in zip(p["lb"], p["ub"], wd)]
                 p["obj"] = 0
                 ps.append(p)
+        # simplex methods run down to the floating-point floor (no tolerance can fire): the inner Nelder-Mead of Subplex then ends
+        # with "simplex too small" in one subspace, an exit on which x has to be restored from the subspace incumbent
+        for nm in ("NLOPT_LN_SBPLX", "NLOPT_LN_NELDERMEAD"):
+            for rep in range(6 if ctx.thorough else 3):
+                p = problems.gen_problem(rng, A, alg_name=nm, n=rng.choice([3, 4]), box=rng.choice(["infinite", "big"]), with_constraints=False, maxeval=4000, allow_max=False)
+                for k in ("ftol_rel", "xtol_rel", "xtol_abs", "xw", "stopval", "maxtime", "clockq", "clock0"):
+                    p.pop(k, None)
+                p["obj"] = 0
+                p["x0"] = [c + rng.uniform(-1, 1) for c in p["oc"]]
+                p["dx"] = [rng.choice([0.5, 1.0]) for _ in range(p["n"])]
+                if rep % 3 == 2:
+                    p["dx"][rng.randrange(p["n"])] = 1e-13
+                p["quietx"] = 0
+                ps.append(p)
         batch = runcheck.run_batch(ctx, bdir, A, ps, [monitors.mon_returned_point], "all algorithms, early exits")
+        # two-stage stopval family with a NON-CONVEX feasible set (outside of a ball): first the run without stopval, then the same
+        # problem with a stopval just below / just above the value reached: STOPVAL_REACHED must come with an opt_f that reached it
+        from ..common import hexd, unhex
+        base = []
+        for aid in ctx.alg["ineq"]:
+            nm = A.name(aid)
+            if nm == "NLOPT_GN_AGS":
+                continue
+            for rep in range(4 if ctx.thorough else 2):
+                n = rng.choice([2, 3])
+                p = problems.gen_problem(rng, A, alg_name=nm, n=n, box="finite", with_constraints=False, maxeval=rng.choice([100, 250]), allow_max=False)
+                for k in ("ftol_rel", "xtol_rel", "xtol_abs", "xw", "stopval", "maxtime", "clockq", "clock0", "dx"):
+                    p.pop(k, None)
+                p["lb"], p["ub"] = [-3.0] * n, [3.0] * n
+                p["obj"] = 0
+                p["oc"] = [rng.uniform(-0.3, 0.3) for _ in range(n)]                      # unconstrained minimum inside the excluded ball
+                p["x0"] = [rng.choice([-1, 1]) * rng.uniform(1.2, 2.0) for _ in range(n)]   # feasible start
+                p["ineq"] = "s:3:%s:%s:0" % (hexd(0.0), hexd(rng.uniform(0.6, 1.2)))
+                p["xtol_rel"] = 1e-6
+                if rep % 2 == 1:
+                    # wavy constraint, linear objective, feasible start (the convex approximations of MMA / CCSA / SLSQP are
+                    # regularly not conservative here: infeasible trial points with a much lower objective are produced)
+                    p["obj"] = 6
+                    p["oc"] = [0.0] * n
+                    p["ineq"] = "s:4:%s:%s:0" % (hexd(1e-8), hexd(rng.uniform(0.15, 0.4)))
+                    p["x0"] = [1.9, 0.3] + [0.0] * (n - 2)
+                    p["maxeval"] = 400
+                base.append(p)
+        b1 = runcheck.run_batch(ctx, bdir, A, base, [monitors.mon_returned_point], "non-convex constraint, no stopval", replay=False)
+        stage2 = []
+        for p, r, ri in b1:
+            if ri is None or ri.ret is None or ri.ret <= 0 or ri.optf != ri.optf or abs(ri.optf) == float("inf"):
+                continue
+            for d in (-0.01, -0.2, 0.01):
+                q = dict(p)
+                q["stopval"] = ri.optf + d * (1 + abs(ri.optf))
+                stage2.append(q)
+        if stage2:
+            runcheck.run_batch(ctx, bdir, A, stage2, [monitors.mon_returned_point], "non-convex constraint, stopval around the reached value", replay=False)
         ctx.sample({"spec": batch[0][1].spec})
         ctx.sample({"spec": batch[-1][1].spec})
         ctx.cov["unproved"] = ["that an f2c core's own incumbent (BOBYQA/NEWUOA kopt, SLSQP, Luksan last iterate, DIRECT minpos, StoGO, AGS) is an evaluated point: observed by the monitor, not modelled"]
